@@ -953,6 +953,38 @@ class GenJumps(Gen):
         return pre + [{"k": "select", "subj": ("lit", "%", 2), "cases": [([("val", ("lit", "%", 1))], [self.trace("case 1 (must not run)")]), ([("val", ("lit", "%", 2))], arm)],
                        "else": [self.trace("case else (must not run)")]}] + post
 
+    def resume_label_from_calls(self):
+        """An error raised one to three calls deep (some of the calls with a GOSUB of their own pending), reached from a GOSUB
+        routine of the main module; its own handler ends in RESUME label with the label inside that routine, so the routine's
+        RETURN still has to find the GOSUB of the main module (top level of the main module only: see KF-C15-1)."""
+        r = self.rng
+        h = self.new_label("Hc")
+        lab = self.new_label("Rc")
+        rt = self.new_label("Mc")
+        depth = r.choice([1, 2, 2, 3])
+        self.uses_rc = True
+        if depth == 1:
+            call = r.choice([{"k": "callsub", "name": "FaultSub", "args": [("var", "Z%")]},
+                             {"k": "assign", "lhs": ("var", "A%"), "rhs": ("bin", "+", ("call", "FaultFn%", [("var", "Z%")]), ("lit", "%", 1))}])
+        elif depth == 2:
+            call = r.choice([{"k": "callsub", "name": "RcOuter", "args": [("var", "C%")]}, {"k": "callsub", "name": "RcOuterGs", "args": []},
+                             {"k": "assign", "lhs": ("var", "A%"), "rhs": ("call", "RcOuterFn%", [("var", "Z%")])}])
+        else:
+            call = {"k": "callsub", "name": "RcTop", "args": [("var", "C%")]}
+        body_handler = [{"k": "print", "items": [("e", ("lit", "$", h + " ERR")), (";",), ("e", ("call", "ERR", []))]},
+                        {"k": "assign", "lhs": ("var", "Z%"), "rhs": ("lit", "%", 2)}, {"k": "resume", "mode": "label", "label": lab}]
+        self.handlers.append((h, body_handler))
+        routine = [self.trace("in " + rt), call, self.trace("after the call (must not run)"),
+                   {"k": "label", "name": lab}, self.trace("at " + lab), self.state_print(), {"k": "return"}]
+        self.subs.append((rt, routine))
+        self.handler_active = False
+        out = [{"k": "assign", "lhs": ("var", "Z%"), "rhs": ("lit", "%", 0)}, {"k": "onerror", "mode": "goto", "label": h},
+               self.trace("gosub " + rt), {"k": "gosub", "label": rt}, self.trace("back from " + rt)]
+        if r.random() < 0.5:
+            # once more: the second time nothing fails (Z% was repaired), the calls return normally
+            out += [{"k": "gosub", "label": rt}, self.trace("back again from " + rt)]
+        return out + [{"k": "onerror", "mode": "zero"}, self.trace("after resume-label block")]
+
     def sub_gosub(self):
         """GOSUB / RETURN inside SUBs: they are local to the call."""
         r = self.rng
@@ -1038,6 +1070,8 @@ class GenJumps(Gen):
                     main += self.header_fault()
                 elif r.random() < 0.4:
                     main += self.resume_into_block()
+                elif r.random() < 0.4:
+                    main += self.resume_label_from_calls()
                 else:
                     main += self.sub_gosub()
             elif x < 0.55:
@@ -1090,6 +1124,24 @@ class GenJumps(Gen):
                 {"k": "sub", "name": "GsExit", "params": [], "static": r.random() < 0.3, "rtype": None,
                  "body": [pr("GsExit in"), {"k": "gosub", "label": "GsE1"}, pr("GsExit after gosub (must not run)"), {"k": "exit", "what": "SUB"},
                           {"k": "label", "name": "GsE1"}, pr("GsExit routine"), {"k": "exit", "what": "SUB"}]},
+            ]
+        if getattr(self, "uses_rc", False):
+            def pr2(t):
+                return {"k": "print", "items": [("e", ("lit", "$", t))]}
+            zero = {"k": "assign", "lhs": ("var", "LZ%"), "rhs": ("lit", "%", 0)}
+            procs += [
+                {"k": "sub", "name": "RcOuter", "params": [("P%", "%")], "static": r.random() < 0.3, "rtype": None,
+                 "body": [pr2("RcOuter in"), {"k": "assign", "lhs": ("var", "P%"), "rhs": ("bin", "+", ("var", "P%"), ("lit", "%", 50))},
+                          {"k": "callsub", "name": "FaultSub", "args": [("var", "Z%")]}, pr2("RcOuter out")]},
+                {"k": "sub", "name": "RcOuterGs", "params": [], "static": r.random() < 0.3, "rtype": None,
+                 "body": [pr2("RcOuterGs in"), {"k": "gosub", "label": "RcG1"}, pr2("RcOuterGs after gosub"), {"k": "exit", "what": "SUB"},
+                          {"k": "label", "name": "RcG1"}, pr2("RcOuterGs routine"), {"k": "callsub", "name": "FaultSub", "args": [("var", "Z%")]},
+                          pr2("RcOuterGs routine after the call"), {"k": "return"}]},
+                {"k": "function", "name": "RcOuterFn%", "params": [("X%", "%")], "static": False, "rtype": "%",
+                 "body": [pr2("RcOuterFn in"), {"k": "assign", "lhs": ("var", "RcOuterFn%"), "rhs": ("bin", "+", ("call", "FaultFn%", [("var", "X%")]), ("lit", "%", 3))}, pr2("RcOuterFn out")]},
+                {"k": "sub", "name": "RcTop", "params": [("P%", "%")], "static": False, "rtype": None,
+                 "body": [pr2("RcTop in"), {"k": "assign", "lhs": ("var", "P%"), "rhs": ("bin", "+", ("var", "P%"), ("lit", "%", 7))},
+                          {"k": "callsub", "name": "RcOuter", "args": [("var", "P%")]}, pr2("RcTop out")]},
             ]
         main = flatten_multi(main)
         counter = [0]
